@@ -42,9 +42,21 @@ def scenario(ctx, i):
 def km(cent):
     from bob.learn.em import KMeansMachine
 
-    m = KMeansMachine(len(cent))
-    m.centroids_ = np.array(cent, dtype=float)
+    # every other call re-uses the previous machine object — already used for transform / predict with other centroids — and
+    # gives it its new centroids the way users do (assignment to `centroids_` or to `means`): the property is about the current ones
+    global _PREV
+    _PREV["n"] += 1
+    m = _PREV["m"] if (_PREV["m"] is not None and _PREV["n"] % 2 == 0) else KMeansMachine(len(cent))
+    m.n_clusters = len(cent)
+    if _PREV["n"] % 4 < 2:
+        m.centroids_ = np.array(cent, dtype=float)
+    else:
+        m.means = np.array(cent, dtype=float)
+    _PREV["m"] = m
     return m
+
+
+_PREV = {"m": None, "n": 0}
 
 
 def dask_of(sc):
